@@ -11,8 +11,13 @@ user-assigned values survive clear() and edits of other elements and are what th
 returns; an element is treated as an input iff a value was assigned to it and it was not cleared since (a ledger
 kept from the operations alone, compared with the implementation's input marks after every operation); with the recalculation option on, the former leaf dependents are held again with
 the values lazy recomputation gives.
+Correspondence with the recalculation option on (`recalc_correspondence`): the same history prefixed with
+`recalc on` on the implementation and on the mechanism model (`St.setValueRecalc`: the lazy assignment followed
+by a top-level evaluation of every former leaf dependent) - result of every op, values with input marks, trace
+graph and reference graph after every op.
 """
 from .. import exec_props as X
+from .. import execworld
 from ..execworld import ExecImpl, node_s, val_s, parse_val
 from ..impl import mx, quiet
 
@@ -67,8 +72,55 @@ def check_inputs(impl, inputs, op, hist, out):
     return True
 
 
+RECALC_OBS = ["values", "graph", "refgraph"]
+
+
+def recalc_correspondence(case, out, stats):
+    """The history with the recalculation option on, run on modelx and on the mechanism model.  modelx iterates over a
+    `set` of target nodes: when a recomputation FAILS and there are several targets, which of the others were evaluated
+    before the failure is not determined by the program - the comparison of that history stops there (counted)."""
+    ops = [["recalc", "on"]] + [list(o) for o in case["ops"]]
+    rcase = dict(case, ops=ops)
+    recs = execworld.run_both(case["cells"], case["refs"], case["n_rn"], case["maxdepth"], ops, observe=RECALC_OBS)
+    stats["recalc_corr_histories"] += 1
+    for k, rec in enumerate(recs):
+        op = rec["op"]
+        if op[0] == "set":
+            stats["recalc_corr_sets"] += 1
+            if "err Formula" in (rec["impl"], rec["model"]):
+                stats["recalc_corr_failed_recomputations"] += 1
+                # the former leaf dependents, from the implementation's own graph before the assignment
+                _, edges = parse_graph(recs[k - 1]["obs"]["graph"][0])
+                eq = op.index("=")
+                key = X.canon_key(case, int(op[1]), op[2:eq])
+                n = None if key is None else node_s(int(op[1]), key)
+                ds = descendants(edges, n) if n is not None else set()
+                leaves = [x for x in ds if not x.endswith("*") and not any(a == x for a, _ in edges)]
+                if len(leaves) > 1:
+                    stats["recalc_corr_order_dependent_stops"] += 1
+                    return
+            elif rec["impl"] == "ok" and rec["obs"]["values"][0] != recs[k - 1]["obs"]["values"][0]:
+                _, edges = parse_graph(recs[k - 1]["obs"]["graph"][0])
+                eq = op.index("=")
+                key = X.canon_key(case, int(op[1]), op[2:eq])
+                n = None if key is None else node_s(int(op[1]), key)
+                if n is not None and descendants(edges, n):
+                    stats["recalc_corr_sets_with_dependents"] += 1
+        if rec["impl"] != rec["model"]:
+            out.disagree(X.case_json(rcase), k, rec["impl"], rec["model"], layer="exec:recalc:result")
+            return
+        for w in RECALC_OBS:
+            a, b = rec["obs"][w]
+            if a != b:
+                out.disagree(X.case_json(rcase), k, a, b, layer="exec:recalc:" + w)
+                return
+
+
 def oracle(case, recs, out, stats):
     nontrivial = False
+    if case["ops"] and case["ops"][0][0] == "recalc":
+        return False        # a replayed recalculating history: what is replayed is the correspondence (`compare`)
+    recalc_correspondence(case, out, stats)
     for recalc in (False, True):
         impl = ExecImpl(case["cells"], case["refs"], case["n_rn"], case["maxdepth"], log=True)
         inputs, inputs_ok = set(), True
@@ -330,8 +382,11 @@ def run(ctx, out):
     stats = X.run_family(ctx, out, CFG, oracle, 120, 2000, structured=scenario_cases() + spelled_edit_cases())
     overwrite_equal(out, stats)
     out.coverage["input_distribution"]["overwrite_equal_scenarios"] = stats["overwrite_equal_scenarios"]
-    out.assumptions.append("the recalculation option is checked by the implementation-only oracle; the Lean "
-                           "mechanism model covers the option-off path of set_value_from_key")
+    out.assumptions.append("recalculation option on: modelx evaluates the former leaf dependents in the iteration "
+                           "order of a Python set; the model takes the order of its graph search.  When a "
+                           "recomputation fails and there are several targets the comparison of that history stops "
+                           "(%d of %d recalculating histories)" % (stats["recalc_corr_order_dependent_stops"],
+                                                                 stats["recalc_corr_histories"]))
 
 
 def replay(ctx, payload, out):
